@@ -1408,6 +1408,16 @@ valid_op(Op) :-
 op_(Priority, OpSpec, Op) :-
     '$op'(Priority, OpSpec, Op).
 
+% an infix and a postfix definition of the same name cannot coexist.
+op_clash(Priority, OpSpec, Op) :-
+    Priority > 0,
+    (  lists:member(OpSpec, [xf, yf]) ->
+       lists:member(Other, [xfx, xfy, yfx])
+    ;  lists:member(OpSpec, [xfx, xfy, yfx]) ->
+       lists:member(Other, [xf, yf])
+    ),
+    current_op(_, Other, Op).
+
 
 %% op(Priority, Spec, Op)
 %
@@ -1437,6 +1447,12 @@ op(Priority, OpSpec, Op) :-
                ( Priority >= 1001 ; Priority == 0 ) ) ->
           % the restrictions on '|' also hold when it is given in a list
           throw(error(permission_error(create, operator, (|)), op/3))
+       ;  true
+       ),
+       (  lists:member(Clash, Op), op_clash(Priority, OpSpec, Clash) ->
+          % found before the first name of the list is declared: a rejected
+          % call leaves the operator table unchanged
+          throw(error(permission_error(create, operator, Clash), op/3))
        ;  true
        ),
        lists:maplist(builtins:op_(Priority, OpSpec), Op),
